@@ -188,10 +188,10 @@ Theorem C11_classification_http :
   http_final (http_attempt HSilent) = FTransient /\
   http_final (http_attempt HBroken) = FTransient /\
   (forall status h, ~ (200 <= status < 300) -> http_final (http_attempt (HResp status h)) <> FDelivered) /\
-  (forall status code cmd, ~ (200 <= status < 300) -> 500 <= code <= 599 ->
-     http_final (http_attempt (HResp status (HCode code cmd))) = FPermanent) /\
-  (forall status code cmd, ~ (200 <= status < 300) -> 400 <= code <= 499 ->
-     http_final (http_attempt (HResp status (HCode code cmd))) = FTransient).
+  (forall status code cmd e, ~ (200 <= status < 300) -> 500 <= code <= 599 ->
+     http_final (http_attempt (HResp status (HCode code cmd e))) = FPermanent) /\
+  (forall status code cmd e, ~ (200 <= status < 300) -> 400 <= code <= 499 ->
+     http_final (http_attempt (HResp status (HCode code cmd e))) = FTransient).
 Proof. exact http_classification. Qed.
 Print Assumptions C11_classification_http.
 
@@ -220,3 +220,42 @@ Theorem C11_mx_destination : forall rcpt0 mx a attempts d,
   (mx = DnsNotFound /\ exists l, a = DnsOk l /\ l <> [] /\ d = DDomain).
 Proof. exact mx_destination. Qed.
 Print Assumptions C11_mx_destination.
+
+(* ---------------- the failure class follows the reply CODE ---------------- *)
+(* SmtpRelayError.factory is handed the whole reply (code + text, whose enhanced status code may
+   contradict the code: "550 4.2.1 ...", "451 5.7.1 ..."); the class depends on the code only *)
+Theorem C11_classification_by_code_only : forall c e e',
+  factory_reply c e = factory_reply c e' /\
+  (factory_reply c e = Perm <-> (c = C5 \/ c = C500)) /\
+  (factory_reply c e = Trans <-> (c = C2 \/ c = C3 \/ c = C4)).
+Proof. exact factory_by_code_only. Qed.
+Print Assumptions C11_classification_by_code_only.
+
+Theorem C11_failed_class_by_code : forall sc cfg msgs m l i c,
+  lookup_res (results (run_client sc cfg msgs)) m = Some (MMap l) -> nth_error l i = Some (TFailed c) ->
+  exists msg j stg cl, msg_at msgs m = Some msg /\ own msg i j /\
+    (stg = Rcpt m (N.of_nat j) \/ stg = Eod m (N.of_nat j)) /\
+    read_reply (reply sc stg) = inl cl /\ is_error cl = true /\
+    (c = Perm <-> (cl = C5 \/ cl = C500)).
+Proof. exact smtp_failed_class_by_code. Qed.
+Print Assumptions C11_failed_class_by_code.
+
+(* ---------------- MxSmtpRelay as an object (MxRecord cache), over all attempt sequences ---------------- *)
+(* after any history of attempts on one relay: the resolver is asked exactly when no fresh record is
+   cached; a resolver error is transient and leaves the record as it was, so the next attempt asks
+   again; a transient result only comes from an error of this very attempt and a permanent one only
+   from this attempt's own "nothing there" answer - an error never turns into a permanent failure;
+   a fresh cached record (successful lookup within its TTL) is used as it is *)
+Theorem C11_mx_error_not_cached : forall steps st d,
+  s_domain st = Some d ->
+  let cache := mx_cache_after steps in
+  let r := match dget cache d with Some r => r | None => mxrec0 end in
+  let '(o, asked, cache') := mx_attempt_st cache st in
+  asked = mx_expired r (s_now st) /\
+  (asked = true -> mx_resolve st = inr tt ->
+     o = MxTrans /\ dget cache' d = Some r /\ forall now', s_now st <= now' -> mx_expired r now' = true) /\
+  (o = MxTrans -> asked = true /\ mx_resolve st = inr tt) /\
+  (o = MxPerm -> asked = true /\ exists e, mx_resolve st = inl (None, e) \/ mx_resolve st = inl (Some [], e)) /\
+  (asked = false -> o = mx_finish r (s_attempts st) /\ exists dst, o = MxRelay dst).
+Proof. exact mx_error_not_cached. Qed.
+Print Assumptions C11_mx_error_not_cached.
